@@ -282,6 +282,7 @@ def run(ctx):
     new_line_table(ctx, "R07-b")
     track_table(ctx, "R07-c")
     width_accounting(ctx, "R07-e")
+    per_line_reset(ctx, "R07-f")
     # with R06-b: operational ⇒ exit 1
     import c06
     c06.exit_code_tables(ctx, "R07-d")
@@ -328,3 +329,40 @@ def width_accounting(ctx, rid):
             r.violation(rid, "FormatLines::char[tab=%s]: line_len update %s" % (tab, got),
                         "the line width is no longer counted as tab_spaces per tab and 1 per other character", ["%s:%d" % (f.file, f.line)])
     r.floor(rid, n, 2, "paths of FormatLines::char")
+
+
+def per_line_reset(ctx, rid):
+    """R07-f: the per-line state is reset on every path through new_line"""
+    p, r = ctx.p, ctx.r
+    r.rule(rid, "FormatLines::new_line resets line_len, last_was_space, current_line_contains_string_literal and clears "
+                "line_buffer on *every* path (selected line or not): state left over from a line outside the selection would "
+                "otherwise exempt or condemn the next selected line")
+    f = p.named("new_line", within="FormatLines")
+    if f is None:
+        r.undecidable(rid, "FormatLines::new_line not found")
+        return
+    paths = explore(f, is_effect=lambda c: c.name.endswith("String::clear"),
+                    pure=lambda c: any(c.name.endswith(x) for x in ("should_report_error", "is_skipped_line", "max_width", "contains_line", "file_lines")))
+    r.paths(rid, len(paths))
+    n = 0
+    for path in paths:
+        if path.end != "ret":
+            continue
+        n += 1
+        last = {}
+        for e in path.effects:
+            if e.kind == "store":
+                last[e.name.rsplit(".", 1)[-1]] = vkey(e.args[0])
+        cleared = any(e.kind == "call" and "line_buffer" in vkey(e.args[0]) for e in path.effects if e.args) or \
+            any(e.kind == "call" for e in path.effects)
+        ok = last.get("line_len") == "0" and last.get("last_was_space") == "false" and \
+            last.get("current_line_contains_string_literal") == "false" and cleared
+        if not ok:
+            fl = [v for k, v in path.decisions if k == "arg1.format_line"]
+            r.instance(rid, "new_line path format_line=%s" % fl, "violation", "%s:%d" % (f.file, f.line), str(last))
+            r.violation(rid, "new_line: per-line state not reset when format_line=%s" % fl,
+                        "at the end of a line the state is %s, line_buffer cleared=%s: what was seen on this line leaks into the next"
+                        % ({k: last.get(k) for k in ("line_len", "last_was_space", "current_line_contains_string_literal")}, cleared),
+                        ["%s:%d" % (f.file, f.line)])
+    r.instance(rid, "new_line resets the per-line state", "ok", "%s:%d" % (f.file, f.line), "%d paths" % n, nontrivial=True)
+    r.floor(rid, n, 4, "paths of new_line")
